@@ -53,16 +53,16 @@ type Order struct {
 
 type EntModel struct {
 	DenomChanged bool // governance changed the enterprise denomination at least once in this run
-	Signers    []string
-	SignersRaw string
-	Denom      string
-	MinAccepts uint64
-	Limit      uint64
-	Whitelist  map[string]bool
-	Orders     map[uint64]*Order
-	NextID     uint64
-	Completed  map[string]*big.Int // Σ completed orders per purchaser since genesis
-	Minted     []uint64            // ids completed in the last BeginBlock
+	Signers      []string
+	SignersRaw   string
+	Denom        string
+	MinAccepts   uint64
+	Limit        uint64
+	Whitelist    map[string]bool
+	Orders       map[uint64]*Order
+	NextID       uint64
+	Completed    map[string]*big.Int // Σ completed orders per purchaser since genesis
+	Minted       []uint64            // ids completed in the last BeginBlock
 }
 
 func (e *EntModel) clone() *EntModel {
